@@ -209,6 +209,11 @@ func (c *Ctx) Finish(outDir string, writeEvidence bool, t0 time.Time, onlyKey st
 		fmt.Printf("  rule %-6s obligations=%-3d floor=%-3d %s\n", id, ri.Count, ri.Floor, ri.Text)
 	}
 	replayDir := filepath.Join(outDir, "replay")
+	if os.Getenv("SHOVELCHECK_VERBOSE") != "" {
+		for _, o := range c.Obls {
+			fmt.Printf("  [%s] %s @ %s :: %s\n", o.Verdict, o.Key, o.Pos, o.Detail)
+		}
+	}
 	for _, o := range c.Obls {
 		if onlyKey != "" && o.Key != onlyKey {
 			continue
